@@ -17,14 +17,16 @@ INFO = {
         'over x in [-40, 40], t in [1e-8, 1e-2] with the analytic facts M1 (Mills), M1u, M2 (truncated mean inside its interval) instantiated at '
         'the applications of each path: results defined; v >= 0; w >= 0; vt and the exact V~ both in [-t-x, t-x], hence |vt - V~| < 2t, and vt = '
         'exact form on the main branch; v within 2% of V on its asymptotic branch; each guard fires exactly below its documented constant '
-        '(machine epsilon, 1e-5) and w\'s guard returns 1 below and 0 above zero; wt >= 0 and wt <= 1 + 4*t*|x| bounds where derivable (see outside).'),
+        '(machine epsilon, 1e-5) and w\'s guard returns 1 below and 0 above zero; the denominator b = A - B of vt and wt is well conditioned, '
+        '(A+B)*t <= 10*|A-B| - a necessary condition for the 1e-13/t accuracy budget, decided over the reals; its float consequence is what the '
+        'replay measures against mpmath; wt in [0, 1 + t^2] (M5/M6; the property\'s "inside [0,1] up to rounding" is claimed with this explicit slack).'),
     'bounds': {'quick': 'x in [-40, 40], t in [1e-8, 1e-2]; CDF x in [-37.5, 38]', 'thorough': 'same obligations, 3x solver budget, cvc5 re-check of the mode-E queries'},
     'outside': ['w <= 1 (not derivable from the listed axioms); wt <= 1 exactly (proved: wt <= 1 + t^2)', 'the 1e-6 relative agreement of v and w with V and W in floats',
                 'the 20t + 1e-13/t bound for wt (cancellation analysis not encodable)', 'dense sweeps / ulp neighbourhoods (a solver covers the interval or does not)',
                 'underflow (standard model of floating point without underflow); libm accuracy is an assumption (4 ulp)'],
     'stubs': ['statistics.erf / math.erf / math.erfc -> true function * (1+e), |e| <= 4 ulp (mode E)', 'common._normal -> Phi, phi applications (mode R)'],
     'axioms': ['T0/T1', 'M1: phi(u) + u*Phi(u) > 0', 'M1u: u < 0 => -u*phi(u) < (u^2+1)*Phi(u)', 'M2: a < b => a(Phi(b)-Phi(a)) < phi(a)-phi(b) < b(Phi(b)-Phi(a))', 'M5/M6: the variance of a standard normal truncated to (a, b) lies in [0, ((b-a)/2)^2]',
-               'G: enclosures of Phi on the integer grid, 1e-9 relative', 'A5: |Phi(x+d)-Phi(x)| <= 1.01*Phi(x)*(|x|+1)*|d| for x <= 0, |d| <= 1e-6'],
+               'G: enclosures of Phi on the integer grid, 1e-9 relative; phi(1.02) >= 0.2371', 'M7: Phi(b)-Phi(a) >= (b-a)*min(phi(a),phi(b)); M4\'\': phi(u)/phi(l) = exp((l^2-u^2)/2) <= 1/(1-(l^2-u^2)/2) (conditioning obligation)', 'A5: |Phi(x+d)-Phi(x)| <= 1.01*Phi(x)*(|x|+1)*|d| for x <= 0, |d| <= 1e-6'],
     'assumptions': ['standard model of floating-point arithmetic (no underflow)', 'libm erf/erfc accurate to 4 ulp'],
 }
 
@@ -261,6 +263,33 @@ def run_fn(spec, ctx):
                 anch = tuple(phi_anchor_axioms(eng, [-8.9]))
                 obs[-1] = ('sign', 'wt >= 0', o < 0, tuple(axm) + anch)
                 obs.append(('upper', 'wt <= 1 + t^2', o > 1 + t * t, tuple(axm) + anch))
+        if fn in ('vt', 'wt'):
+            # conditioning of the denominator b = A - B: a necessary condition for the 1e-13/t accuracy budget of the
+            # property is that the subtraction does not lose more than a factor ~10/t, i.e. (A + B) * t <= 10 * |A - B|.
+            seen_div = set()
+            neg_side = eng.check(x >= 0, timeout=5000)[0] == 'unsat'
+            pp = -x if neg_side else x
+            _ax, pts_all = analytic_axioms(eng)
+            sel = {}
+            for (a_, P_, p_) in pts_all:
+                if core.is_zero(core.som(a_ - (-t - pp))):
+                    sel['l'] = (a_, P_, p_)
+                if core.is_zero(core.som(a_ - (t - pp))):
+                    sel['u'] = (a_, P_, p_)
+            for (A_, B_, d_) in getattr(eng, 'cancel_divs', []):
+                if d_.get_id() in seen_div:
+                    continue
+                seen_div.add(d_.get_id())
+                axc = []
+                if 'l' in sel and 'u' in sel:
+                    (al, Pl, pl), (au, Pu, pu) = sel['l'], sel['u']
+                    axc = [pl > 0, pu > 0, Pl > 0, Pu > 0, Pu < 1, Pl <= Pu,
+                           z3.Implies(au < 0, pu + au * Pu > 0),                       # M1 at u
+                           Pu - Pl >= 2 * t * pl,                                      # M7: mass >= width * smaller endpoint density
+                           z3.Implies(2 * t * pp < 1, pu * (1 - 2 * t * pp) <= pl),    # M4'': phi(u)/phi(l) = exp(2 t |x|) <= 1/(1 - 2 t |x|)
+                           z3.Implies(t + pp <= core.rv(1.02), pl >= core.rv(0.2371))]  # G: phi(1.02) = 0.23713...
+                obs.append(('cond', f'{fn}: denominator formed without avoidable cancellation: (A+B)*t <= 10*|A-B|',
+                            z3.And(t * (A_ + B_) > 10 * d_, t * (A_ + B_) > -10 * d_), tuple(axc)))
         for clause, desc, neg, extra in obs:
             if neg is None:
                 ctx.ob(desc + ' (decided on the path)', 'unsat', sample={'function': fn, 'clause': clause, 'path_condition': [str(c)[:120] for c in eng.pc]})
@@ -277,7 +306,7 @@ def run_fn(spec, ctx):
                       'analytic_axiom_instances': len(extra)}
             if r == 'sat':
                 inp = core.model_inputs(m, ['x', 't'])
-                inp['__alt__'] = [{'x': a, 't': b} for a in (-8.5, -8.3, -8.25, -8.2, -8.15, -8.1, -8.05, -8.0, -7.9, -7.0, -6.9, -6.78, -5.0, -1.0, 0.0, 0.3, 5.0, 6.9, 7.0, 8.3, 20.0)
+                inp['__alt__'] = [{'x': a, 't': b} for a in (-5.9, 5.9, -6.5, 6.22, -8.5, -8.3, -8.25, -8.2, -8.15, -8.1, -8.05, -8.0, -7.9, -7.0, -6.9, -6.78, -5.0, -1.0, 0.0, 0.3, 5.0, 6.9, 7.0, 8.3, 20.0)
                                   for b in (1e-8, 1e-5, 1.7e-5, 1e-3, 1e-2)]
                 ctx.ob(f'{fn}: {desc}', 'sat', {'mode': 'fn', 'fn': fn, 'clause': clause, 'inputs': inp}, sample=sample)
             else:
@@ -335,6 +364,19 @@ def replay(cand):
         den = C.phi_major(xv - tv)
         bad = den < EPS and abs(mp.mpf(got) - ex) > ex / 50
         det = f'= {got!r}, exact V = {mp.nstr(ex, 17)}'
+    elif clause == 'cond':
+        # float consequence of an ill-conditioned denominator: vt / wt leave the property's accuracy budget
+        AX = abs(X)
+        b = mp.ncdf(T - AX) - mp.ncdf(-T - AX)
+        a = mp.npdf(-T - AX) - mp.npdf(T - AX)
+        vte = (-a if xv < 0 else a) / b
+        if fn == 'vt':
+            ex, tolv = vte, 2 * T + mp.mpf('1e-13') / T
+        else:
+            ex = ((T - AX) * mp.npdf(T - AX) + (T + AX) * mp.npdf(-T - AX)) / b + vte * vte
+            tolv = 20 * T + mp.mpf('1e-13') / T
+        bad = abs(mp.mpf(got) - ex) > tolv
+        det = f'= {got!r}, exact value {mp.nstr(ex, 17)}, allowed deviation {mp.nstr(tolv, 5)}'
     elif clause in ('guard', 'guardval') and fn in ('v', 'w'):
         den = C.phi_major(xv - tv)
         V = mp.npdf(X - T) / mp.ncdf(X - T)
